@@ -673,7 +673,11 @@ _sub("C05", "note",
      "non-empty fragment names and aliases (parser guarantee: parsed_names_nonempty proves it for the parser MODEL's documents; the validator's documents are "
      "built by the harness from the real parser's tree, so the transport is not a Lean statement), FieldOwners (only object / interface types carry "
      "fields: fieldOwnersB, evaluated by the driver on every schema), DocChecksMemo (distinct selection-set identities, no meta field with a "
-     "sub-selection: the two static checks of C06's rule_overlapping_fields_memo_iff_wf), WorldTyped (part of the statement).")
+     "sub-selection: the two static checks of C06's rule_overlapping_fields_memo_iff_wf), WorldTyped (part of the statement). Residuals named by the "
+     "audit: 'validation never raises' has no theorem for the chain (ValidateNeverCrashes open; tied by the validate-raises oracle); the premise "
+     "SilentM is per rule ALONE and ignores the crash flag (premise side: the theorem covers more documents; the link from the real chain's verdict is "
+     "C06's open chain-level statement); Exec.argsEntry folds internal / fuel failures of argument coercion into a field error, so the conclusion is "
+     "silent about exceptions inside coerce_argument_values (correspondence only).")
 CHECKS["C05"]["text"] = CHECKS["C05"]["text"].rstrip() + (
     " ADDED IN ROUND ex2: MergeSafe is NO LONGER A HYPOTHESIS - mergeSafe_of_clause derives it from the clause of 5.3.2 on the validator's document "
     "(scope correspondence executor scope -> fields the validator's search collects: Lemmas/C05MergeScope.lean scope_coll; _same_arguments on distinct "
@@ -688,8 +692,16 @@ CHECKS["C05"]["text"] = CHECKS["C05"]["text"].rstrip() + (
     "document) on which the whole chain is stated is now a model file (ExecOfValidate.lean) and the driver op `edoc` checks, for every accepted "
     "document, that eDoc of the validator-side JSON IS the document the driver executes (field locations apart) and that docChecksB holds. New fixed "
     "class lookalike-member (a fragment on an interface must not apply to a union member with a same-named field that does not implement it: "
-    "mutation M4 had been missed by C04 and C05). C05-1 of the hunter is C17's documented refusal (nothing added).")
-_add("C04", "named probes of two outside reports (corr/C04_hunt1.py, no randomness): exponential fragment expansion in the executor's collect_fields "
+    "mutation M4 had been missed by C04 and C05). C05-1 of the hunter is C17's documented refusal (nothing added). AFTER THE AUDIT (C05-F1..F5): "
+    "accepted_responds_computable (positive half: a response exists for some fuel, is fuel-independent and is not an internal exception), "
+    "accepted_same_key_unambiguous, and Props/C05_nocrash.lean: the FULL statement ValidateNeverCrashes (the chain /repo runs never ends in a crash) is "
+    "NOT proved; of the model's five crash sites two are closed (check_scalar_never_raises: dead code; cycle_report_never_raises under NoSelf), the "
+    "overlap search alone is C06's overlap_memo_run_never_crashes, the two stack sites (KnownDirectives, UniqueInputFieldNames) and the chain lift are open.")
+_add("C04", "AFTER THE AUDIT (C04-F1/F2/F3): serializeInt of a bool is the integer 1 / 0 as /repo HEAD (d72dd53) in the model and in the Python "
+            "reference (fixed case bool-at-int-position of the default-resolver stream; json.dumps tells true from 1); history_independent and "
+            "exec_deterministic are documented as true by construction (the tie is the history stream); errors_at_or_below_nulls is null_error_bijection "
+            "under an honest name - the statement is one-directional, the global converse is open. "
+            "Named probes of two outside reports (corr/C04_hunt1.py, no randomness): exponential fragment expansion in the executor's collect_fields "
             "(node multiplicity 2**n at n = 6, 9, 12 on a validated document with ONE field node) and `@skip(if: true)` next to an `@include` that cannot "
             "be coerced (field / inline fragment / spread, both executors).",
      "Known findings H14 (collect_fields expands a fragment once per sibling inline spread while the visited set is empty: 2**n nodes, the 1.7 kB document "
